@@ -214,7 +214,7 @@ PROPS["C17"] = dict(
     proof_files=["Proofs/OnceInit.v", "Tie/Cell.v", "Props/C17.v"],
     proof_targets=["Props/C17.vo"],
     props_module="Props.C17",
-    theorems=["C17_code_as_modelled", "C17_initialised_once_all_schedules", "C17_each_dropped_exactly_once",
+    theorems=["C17_code_as_modelled", "C17_code_get_or_init_is_get_or_try_init", "C17_initialised_once_all_schedules", "C17_each_dropped_exactly_once",
               "C17_no_drop_path_never_drops_the_seed", "C17_nonvacuous"],
     engines=[("oncediff", [])],
     rule="oncediff: every outcome script over {succeed, fail, panic} up to length 4 (quick) / 5 (thorough) "
@@ -242,14 +242,14 @@ PROPS["C15"] = dict(
     level_note="Trusted: crossbeam Select::ready/try_recv/disconnect semantics as modelled, the watcher keeps "
                "its EventSender (modelled), /proc/self/task sampling (1 tick = 10 ms; threshold: more than "
                "1 tick in the window = busy).",
-    gen=["HotReloading"],
+    gen=["HotReloading", "Watcher", "Private"],
     model_files=["Ref/Reloader.v"],
     model_targets=["Ref/Reloader.vo"],
-    proof_files=["Proofs/Reloader.v", "Tie/Answers.v", "Props/C15.v"],
+    proof_files=["Proofs/Reloader.v", "Tie/Answers.v", "Tie/Watcher.v", "Props/C15.v"],
     proof_targets=["Props/C15.vo"],
     props_module="Props.C15",
     theorems=["C15_code_leaves_the_loop_when_the_cache_is_gone", "C15_code_leaves_the_loop_when_events_are_over",
-              "C15_idle_blocks", "C15_no_spin",
+              "C15_code_watcher_lets_go_when_nobody_listens", "C15_idle_blocks", "C15_no_spin",
               "C15_exits_after_drop", "C15_no_accumulation", "C15_old_loop_spins"],
     engines=[("loopdiff", [])],
     rule="loopdiff: idle live caches (in-memory and FileSystem sources) must show sleeping reloader "
@@ -360,7 +360,8 @@ sys_prop(
      "C02_load_of_a_present_key_returns_it", "C02_successful_load_is_cached",
      "C02_get_or_insert_never_overwrites", "C02_get_or_insert_inserts_when_absent",
      "C02_remove_deletes_exactly_its_key", "C02_take_deletes_exactly_its_key_and_returns_it",
-     "C02_clear_empties", "C02_code_keys_compare_type_and_id", "C02_code_maps_address_the_given_key"],
+     "C02_clear_empties", "C02_code_keys_compare_type_and_id", "C02_code_maps_address_the_given_key",
+     "C02_code_keys_carry_the_id_as_given"],
     ["Private", "Deps", "CacheMap", "LocalMap"], ["handle-changed", "key-type-confusion", "racers-disagree"],
     extra_engines=[("racediff", ["--parts", "reentrant"])])
 
@@ -564,7 +565,8 @@ PROPS["C01"] = dict(
     proof_files=["Proofs/Sharded.v", "Tie/Maps.v", "Tie/Graph.v", "Props/C01.v"],
     proof_targets=["Props/C01.vo"],
     props_module="Props.C01",
-    theorems=["C01_code_maps_as_modelled", "C01_sharded_map_is_a_map", "C01_or_insert_keeps_the_first",
+    theorems=["C01_code_maps_as_modelled", "C01_code_keys_carry_the_id_as_given", "C01_sharded_map_is_a_map",
+              "C01_or_insert_keeps_the_first",
               "C01_race_has_one_winner_seen_by_all", "C01_presence_is_monotone"],
     engines=[("racediff", [])],
     thorough_features=[["parking_lot"], ["no_ahash"]],
